@@ -19,6 +19,9 @@ demo = os.path.join(mdir, "demo_test.go")
 res = {"property": prop, "mutant": name}
 try:
     rc, o = sh("git apply %s" % patch, cwd=wt); assert rc == 0, "patch does not apply: " + o
+    if os.environ.get("SEED_PRE"):
+        rc, o = sh(os.environ["SEED_PRE"], cwd=wt); assert rc == 0, o
+        res["pre_cmd"] = os.environ["SEED_PRE"]
     rc, o = sh("go build ./... && go test -count=1 ./%s/" % pkg, cwd=wt)
     res["existing_tests_pass_with_patch"] = (rc == 0)
     if rc != 0: res["existing_tests_output"] = o[-1500:]
